@@ -29,7 +29,7 @@ META = {
     "explanation": "SMT over all iteration counts / window settings up to the bound; sampler part enumerates small counts",
     "bounds": {"quick": {"n_warm_up_iter": "<= 2000 symbolic (<= 40 for multiplier 1.5)", "window_settings": "1..100 symbolic", "multiplier": [2.0, 3.0, 1.5],
                          "sampler_part": "n_warm_up in 0..12, n_main 3, chains 1-2"},
-               "thorough": {"n_warm_up_iter": "<= 20000 symbolic (<= 80 for multiplier 1.5)", "sampler_part": "n_warm_up in 0..40"}},
+               "thorough": {"n_warm_up_iter": "<= 20000 symbolic (<= 48 for multiplier 1.5)", "sampler_part": "n_warm_up in 0..40"}},
     "outside": "multipliers other than 1.5, 2, 3 (products with an integer are exact in binary64 only for dyadic multipliers); "
                "n_warm_up_iter beyond the bound; custom stagers",
     "stubs": ["builtin int in mici.stagers applied to float x symbolic-int: exact integer product for dyadic multipliers, fresh integer "
@@ -351,7 +351,7 @@ def cases(tier):
     out = [Case("lemma/bvfp", case_bvfp_lemma, {}, timeout_s=600), Case("simple", case_simple, {}, timeout_s=300)]
     for mult in (2.0, 3.0, 1.5):
         # multiplier 1.5 lets a window of 1 stay 1 (floor(1.5) = 1): the loop then runs n times, so its bound is small
-        nmax = (80 if th else 40) if mult == 1.5 else (20000 if th else 2000)
+        nmax = (48 if th else 40) if mult == 1.5 else (20000 if th else 2000)
         out.append(Case(f"windowed/mult{mult}", case_windowed, {"mult": mult, "nmax": nmax}, timeout_s=3000))
     rng = list(range(0, 41)) if th else list(range(0, 13))
     for stager_kind, with_slow in (("windowed", True), ("windowed", False), ("simple", True), ("default", True)):
